@@ -28,12 +28,14 @@ def ensure_installed(seed=0):
 
 
 class Node:
-    def __init__(self, role="client", seed=0, apps=None, watchdog=2, sleep_timer=None):
+    def __init__(self, role="client", seed=0, apps=None, watchdog=2, sleep_timer=None, sched=None, cfg_override=None):
         ensure_installed()
         from bromelia import Diameter
         self.role = role
-        self.s = vsched.new_sched(seed, max_steps=400000)
+        self.s = sched if sched is not None else vsched.new_sched(seed, max_steps=400000)
+        self.foreign_psm = ()            # state machine threads of other nodes in the same scheduler (never run by pump)
         cfg = dict(CLIENT_CFG if role == "client" else SERVER_CFG)
+        cfg.update(cfg_override or {})
         cfg["WATCHDOG_TIMEOUT"] = watchdog
         cfg["APPLICATIONS"] = list(apps or [])
         self.cfg = cfg
@@ -78,7 +80,7 @@ class Node:
     # ------------------------------------------------------------------ stepping
     def _others(self):
         psm = self.psm_thread
-        return [t for t in self.s.threads if t is not psm]
+        return [t for t in self.s.threads if t is not psm and t.name not in self.foreign_psm]
 
     def run_others(self, until=None, include_psm=False, fire_timers=False, limit=20000):
         """run every thread except the state machine thread until none of them can make progress"""
